@@ -259,7 +259,7 @@ structure Fixes where
   lam : Bool         -- lambda parameters count as bound inside the lambda
   comp : Bool        -- comprehension variables count as bound while the element expression is visited
   delB : Bool        -- ctxremove never strikes a builtin from contexts[0]
-  nested : Bool      -- `a, (b, c) = …` records b and c (the code: leftmostname of each element)
+  nested : Bool      -- `a, (b, c) = …` records every name of the target (gather_names; the code: leftmostname of each element)
   delSeq : Bool      -- `del (a, b)` / `del [a]` strike a and b (the code: Name targets only)
   delSess : Bool     -- a module-level `del x` strikes x from contexts[0] too (same namespace) unless it is a builtin
   handler : Bool     -- an `except … as e` records e when the handler is entered (the code: when the `try` is entered; a `del e` in between strikes it)
@@ -584,7 +584,7 @@ mutual
     | .assign sid tgts v =>
       let g := st.g && gExprs env.fx (one v) && (env.fx.nested || subset (tBindsL tgts) (assignAdds tgts))
       let c0 := preW env st.c (allW v)
-      let c1 := c0.addTop (assignAdds tgts ++ (if env.fx.nested then tBindsL tgts else []))
+      let c1 := c0.addTop (assignAdds tgts ++ (if env.fx.nested then tNamesL tgts else []))
       let r := xEs env [] c1 (one v)
       ([⟨sid, st.s.readsOk env (one v) (tReadsL tgts), [], st.tame, false, g, r.1⟩],
        { st with c := r.2, s := st.s.bind (allW v ++ tBindsL tgts), g := g })
